@@ -826,6 +826,92 @@ fn sink_body(case: &SinkCase, ctx: &mut CaseCtx) -> PropResult {
     Ok(())
 }
 
+/// `rbxverif corpus <dir>`: seed files for the libFuzzer campaigns (valid inputs from
+/// the generators; test-files/ is empty in this tree).
+pub fn corpus_main(dir: &str) -> ! {
+    use proptest::strategy::ValueTree;
+    use proptest::test_runner::{Config, RngAlgorithm, TestRng, TestRunner};
+    let rng = TestRng::from_seed(RngAlgorithm::ChaCha, &[7u8; 32]);
+    let mut runner = TestRunner::new_with_rng(Config { failure_persistence: None, ..Config::default() }, rng);
+    let strat = base_strategy(6);
+    let mut counts = [0usize; 3];
+    for sub in ["bin_decode", "xml_decode", "attr_decode"] {
+        let _ = std::fs::create_dir_all(format!("{dir}/{sub}"));
+    }
+    let mut tries = 0;
+    while counts.iter().any(|c| *c < 60) && tries < 5000 {
+        tries += 1;
+        let base = strat.new_tree(&mut runner).unwrap().current();
+        let (sub, idx) = match base.kind() {
+            Kind::Binary => ("bin_decode", 0),
+            Kind::Xml | Kind::XmlReadUnknown => ("xml_decode", 1),
+            Kind::Attributes => ("attr_decode", 2),
+        };
+        if counts[idx] >= 60 {
+            continue;
+        }
+        if let Ok(bytes) = base.render() {
+            if bytes.len() <= 65536 {
+                let _ = std::fs::write(format!("{dir}/{sub}/seed-{:03}", counts[idx]), bytes);
+                counts[idx] += 1;
+            }
+        }
+    }
+    println!("corpus: {counts:?} files in {dir}");
+    std::process::exit(0)
+}
+
+#[derive(Clone, Debug, Serialize, Deserialize)]
+pub struct Artifact {
+    pub target: String,
+    pub file: String,
+    pub bytes: Vec<u8>,
+}
+
+/// Inputs saved by the libFuzzer campaigns (thorough tier): each is re-run through the
+/// sandbox worker, which attributes it to a site / known finding like any mutant.
+fn artifact_body(a: &Artifact, ctx: &mut CaseCtx) -> PropResult {
+    let kind = match a.target.as_str() {
+        "bin_decode" => Kind::Binary,
+        "xml_decode" => Kind::XmlReadUnknown,
+        _ => Kind::Attributes,
+    };
+    ctx.label("fuzzer_artifact");
+    let outcome = sandbox::sandboxed_decode(kind, &a.bytes);
+    match outcome_to_result(kind, &outcome, &a.bytes, ctx) {
+        Ok(()) => {
+            // the decoder itself is fine with it: the in-target oracle (re-save) fired
+            fail!(
+                format!("fuzz-oracle:{}", a.target),
+                "libFuzzer saved {} ({} bytes): the decoder returns {:?}, so the target's own oracle (decode -> encode -> decode) failed; replay with `cargo +nightly fuzz run {} {}`",
+                a.file,
+                a.bytes.len(),
+                outcome,
+                a.target,
+                a.file
+            )
+        }
+        Err(f) => Err(f),
+    }
+}
+
+fn load_artifacts() -> Vec<Artifact> {
+    let mut out = Vec::new();
+    for target in ["bin_decode", "xml_decode", "attr_decode"] {
+        let dir = format!("{}/target/fuzz/artifacts/{target}", crate::engine::VERIF_ROOT);
+        if let Ok(rd) = std::fs::read_dir(&dir) {
+            let mut files: Vec<_> = rd.flatten().map(|e| e.path()).collect();
+            files.sort();
+            for p in files {
+                if let Ok(bytes) = std::fs::read(&p) {
+                    out.push(Artifact { target: target.to_string(), file: p.display().to_string(), bytes });
+                }
+            }
+        }
+    }
+    out
+}
+
 pub fn run(ctx: &Ctx) -> PropertyReport {
     let mut rep = PropertyReport::new(
         "C13",
@@ -881,6 +967,22 @@ pub fn run(ctx: &Ctx) -> PropertyReport {
         let mut r = ctx.run_prop("delivery", cases, strat, delivery_body);
         r.floor("interrupted_reads_injected", cases / 20);
         r.floor("one_byte_reads", cases / 50);
+        rep.push(r);
+    }
+    if sub.runs("fuzz-artifacts") && (ctx.cfg.tier == crate::engine::Tier::Thorough || ctx.cfg.replay.is_some()) {
+        let arts = if ctx.cfg.replay.is_some() { vec![] } else { load_artifacts() };
+        let mut r = ctx.run_list("fuzz-artifacts", arts, false, artifact_body);
+        let summary = std::fs::read_to_string(format!("{}/target/fuzz/summary.json", crate::engine::VERIF_ROOT)).ok().and_then(|t| serde_json::from_str::<serde_json::Value>(&t).ok());
+        match summary {
+            Some(v) => {
+                if let Some(n) = v.get("total_execs").and_then(|x| x.as_u64()) {
+                    r.evaluations += n;
+                }
+                r.samples.push(v);
+                r.notes.push("coverage-guided libFuzzer campaigns (cargo-fuzz, ASan, debug assertions) over bin_decode / xml_decode / attr_decode, seeded from generated valid files; executions counted from the libFuzzer logs".into());
+            }
+            None => r.notes.push("no libFuzzer campaign summary found (run through ./check C13 thorough)".into()),
+        }
         rep.push(r);
     }
     if sub.runs("sink-faults") {
